@@ -1,3 +1,5 @@
+mod c04;
+mod c04gen;
 mod astdump;
 mod c01;
 mod c08;
@@ -10,6 +12,9 @@ mod c10;
 mod c11;
 mod c12;
 mod c15;
+mod c20;
+mod crash;
+mod jsonspan;
 mod dump;
 mod progen;
 mod godump;
@@ -36,6 +41,7 @@ fn main() {
     }
     let args = util::parse_args(&argv[2..]);
     match argv[1].as_str() {
+        "c04" => c04::main(&args),
         "c01" => c01::main(&args),
         "c03" => c03::main(&args),
         "c05" => c05::main(&args),
@@ -46,6 +52,7 @@ fn main() {
         "c10" => c10::main(&args),
         "c12" => c12::main(&args),
         "c15" => c15::main(&args),
+        "c20" => c20::main(&args),
         "c11" => c11::main(&args),
         "c17" => c17::main(&args),
         "c17sem" => c17::main_sem(&args),
@@ -57,6 +64,10 @@ fn main() {
         "dce" => dce::main(&args),
         "gocomp" => gocomp::main(&args),
         "probe" => probe::main(&args),
+        "stages" => probe::stages(&args),
+        "golden" => probe::golden(&args),
+        "hover" => probe::hover(&args),
+        "shrink" => probe::shrink(&args),
         other => {
             eprintln!("unknown subcommand {}", other);
             std::process::exit(2);
